@@ -62,6 +62,9 @@ type Case struct {
 	FailAt int `json:"fail_at,omitempty"`
 	// Transient: the write error happens once (an expired write deadline); the sequence goes on afterwards
 	Transient bool `json:"transient,omitempty"`
+	// Impl: "" = the buffered connection (standard.Conn); "netw" = network.NewWriter over the same scripted connection, the
+	// generic reserve / write / flush buffer that body and compression writers use
+	Impl string `json:"impl,omitempty"`
 }
 
 var (
@@ -423,18 +426,21 @@ func (r *errAfterReader) Read(p []byte) (int, error) {
 	return n, nil
 }
 
-func runWriter(c *mc.Ctx, ops []Op, failAt int, transient, report bool) {
+func runWriter(c *mc.Ctx, ops []Op, failAt int, transient, report bool, impl string) {
 	sc := netsim.NewScriptConn(nil, netsim.EndEOF)
 	sc.WriteFailAt = failAt
 	sc.WriteFailOnce = transient
-	conn := netsim.Wrap(sc, 4096)
+	var conn network.Writer = netsim.Wrap(sc, 4096)
+	if impl == "netw" {
+		conn = network.NewWriter(sc)
+	}
 	var want []byte
 	var keep [][]byte // buffers handed to WriteBinary must stay valid until Flush
 	seq := byte(1)
 	failed := false
 	fail := func(kind, msg string) {
 		if report {
-			c.Violate("writer|"+kind, fmt.Sprintf("operations %v (write error at %d, transient=%v): %s", ops, failAt, transient, msg), Case{Side: "writer", Ops: ops, FailAt: failAt, Transient: transient})
+			c.Violate("writer"+impl+"|"+kind, fmt.Sprintf("operations %v (write error at %d, transient=%v): %s", ops, failAt, transient, msg), Case{Side: "writer", Ops: ops, FailAt: failAt, Transient: transient, Impl: impl})
 		}
 	}
 	defer func() {
@@ -605,7 +611,17 @@ func run(c *mc.Ctx) {
 				if tr && fa == 0 {
 					continue
 				}
-				runWriter(c, ops, fa, tr, true)
+				runWriter(c, ops, fa, tr, true, "")
+				c.Add("executions", 1)
+				c.Add("transitions", int64(len(ops)))
+			}
+			// the generic writer: no ReadFrom, and a failed Flush drops what was buffered (no transient mode)
+			hasRF := false
+			for _, o := range ops {
+				hasRF = hasRF || strings.HasPrefix(o.K, "readfrom")
+			}
+			if !hasRF {
+				runWriter(c, ops, fa, false, true, "netw")
 				c.Add("executions", 1)
 				c.Add("transitions", int64(len(ops)))
 			}
@@ -619,7 +635,7 @@ func replay(c *mc.Ctx, raw json.RawMessage) {
 		return
 	}
 	if cs.Side == "writer" {
-		runWriter(c, cs.Ops, cs.FailAt, cs.Transient, true)
+		runWriter(c, cs.Ops, cs.FailAt, cs.Transient, true, cs.Impl)
 		return
 	}
 	_, k, msg := runPath(cs.Script, cs.Ops)
